@@ -31,11 +31,15 @@ def strip_doc(body):
 
 
 def find_funcs(tree):
-    """last definition of each module-level function wins (overloads come first)"""
+    """last definition of each module-level function wins (overloads come first); methods are found as Class.name"""
     out = {}
     for n in tree.body:
         if isinstance(n, ast.FunctionDef):
             out[n.name] = n
+        if isinstance(n, ast.ClassDef):
+            for m in n.body:
+                if isinstance(m, ast.FunctionDef):
+                    out[f"{n.name}.{m.name}"] = m
     return out
 
 
@@ -364,18 +368,86 @@ COQ_TY = {"int": "Z", "optint": "option Z", "vec": "vec", "optvec": "option vec"
           "cyc": "option cyclic", "optmat": "option mat"}
 ELEM_TY = {"vec": "int", "mat": "vec", "matlist": "mat", "nil": "int"}
 
+# ---- third batch (Np/NpZ3.v): dynamically typed values ------------------------------------------------------
+COQ_TY.update({"ix": "pyidx", "ixlist": "list pyidx", "slice": "pyslice", "pylist": "vec", "nda": "ndarr", "ndb": "ndbool",
+               "spt": "sptz", "key": "pykey", "elem": "pyelem", "elist": "list pyelem", "kt": "ktz", "ktorseq": "kt_or_seq",
+               "shp": "pyshp", "ten3": "ten3"})
+ELEM_TY.update({"ixlist": "ix", "pylist": "int", "elist": "elem"})
+# union type -> Python class name -> constructors of the Gallina inductive that stand for instances of that class
+UNION_CLASSES = {
+    "ix": {"int": ["IxInt"], "np.integer": ["IxInt"], "float": [], "slice": ["IxSlice"], "Sequence": ["IxSeq"],
+           "list": ["IxSeq"], "np.ndarray": ["IxArr"], "tuple": []},
+    "key": {"int": ["KInt"], "np.integer": ["KInt"], "float": [], "slice": ["KSlice"], "Sequence": ["KTuple", "KList"],
+            "list": ["KList"], "np.ndarray": ["KArr"], "tuple": ["KTuple"]},
+    "elem": {"int": ["EInt"], "np.integer": ["EInt"], "float": [], "slice": [], "Sequence": ["EList"], "list": ["EList"],
+             "np.ndarray": [], "tuple": []},
+    "ktorseq": {"ttb.ktensor": ["UKt"], "Sequence": ["USeq"], "np.ndarray": [], "list": ["USeq"], "tuple": ["USeq"]},
+    "shp": {"int": ["SInt"], "np.integer": ["SInt"], "float": [], "np.floating": [], "slice": [], "np.ndarray": ["SArr"],
+            "Sequence": ["STuple", "SList"], "list": ["SList"], "tuple": ["STuple"]},
+}
+# constructor -> (type of its argument, boolean recogniser)
+UNION_CTORS = {"IxInt": ("int", "ix_is_int"), "IxSlice": ("slice", "ix_is_slice"), "IxSeq": ("pylist", "ix_is_list"),
+               "IxArr": ("vec", "ix_is_arr"), "KInt": ("int", "key_is_int"), "KSlice": ("slice", "key_is_slice"),
+               "KArr": ("nda", "key_is_arr"), "KTuple": ("elist", "key_is_tuple"), "KList": ("elist", "key_is_list"),
+               "EInt": ("int", "elem_is_int"), "EList": ("pylist", "elem_is_list"), "UKt": ("kt", "u_is_kt"),
+               "USeq": ("matlist", "u_is_seq"), "SInt": ("int", "shp_is_int"), "SArr": ("nda", "shp_is_arr"),
+               "STuple": ("elist", "shp_is_tuple"), "SList": ("elist", "shp_is_list")}
+# injections used when a value of a narrowed type flows into a variable / join of the union type
+UNION_INJ = {("int", "ix"): "IxInt", ("slice", "ix"): "IxSlice", ("pylist", "ix"): "IxSeq",
+             ("kt", "ktorseq"): "UKt", ("matlist", "ktorseq"): "USeq", ("elist", "shp"): "STuple"}
+
 
 def dump(src):
     return ast.dump(ast.parse(src, mode="eval").body)
 
 
+def coq_ty(t):
+    return t[5:] if t.startswith("enum:") else COQ_TY[t]
+
+
+def module_info(tree):
+    """module-level `class X(Enum)` member lists and `Alias = Union[a, b, ...]` class-name lists"""
+    enums, aliases = {}, {}
+    for n in tree.body:
+        if isinstance(n, ast.ClassDef) and [ast.dump(b) for b in n.bases] == [dump("Enum")]:
+            ms = []
+            for st in strip_doc(n.body):
+                if isinstance(st, ast.Assign) and len(st.targets) == 1 and isinstance(st.targets[0], ast.Name) \
+                        and isinstance(st.value, ast.Constant):
+                    ms.append(st.targets[0].id)
+                else:
+                    ms = None
+                    break
+            if ms:
+                enums[n.name] = ms
+        if isinstance(n, ast.Assign) and len(n.targets) == 1 and isinstance(n.targets[0], ast.Name) \
+                and isinstance(n.value, ast.Subscript) and ast.dump(n.value.value) == dump("Union") \
+                and isinstance(n.value.slice, ast.Tuple):
+            names = []
+            for x in n.value.slice.elts:
+                if isinstance(x, ast.Name):
+                    names.append(x.id)
+                elif isinstance(x, ast.Attribute) and isinstance(x.value, ast.Name):
+                    names.append(f"{x.value.id}.{x.attr}")
+                else:
+                    names = None
+                    break
+            if names:
+                aliases[n.targets[0].id] = names
+    return enums, aliases
+
+
 class IntTr:
-    def __init__(self, fenv, known_funcs):
+    def __init__(self, fenv, known_funcs, enums=None, aliases=None):
+        self.enums = enums or {}            # enum class name -> member names (module-level `class X(Enum)`)
+        self.aliases = aliases or {}        # module-level `Alias = Union[a, b, ...]` -> class names
         self.types = fenv["types"]          # name -> declared type (join type)
         self.ret = fenv["returns"]          # list of types of the returned tuple
         self.known = known_funcs            # translated function name -> (param types, return types)
         self.fresh = 0
         self.options = fenv.get("options", [])
+        self.retypes = fenv.get("retypes", {})   # name -> further types a straight-line rebinding may switch the variable to
+        self.known_names = {}                    # translated function name -> parameter names (keyword / *args calls)
         self.guards = []                    # side conditions (index in range, divisor non-zero) of the statement being translated
         self.loops = []                     # stack of loop-carried variable lists (innermost last)
 
@@ -403,6 +475,10 @@ class IntTr:
     def expr(self, e, cur):
         """cur: name -> (gallina text, current type). returns (text, type)"""
         d = ast.dump(e)
+        if "dyn" in self.options:
+            r_ = self.dyn_expr(e, cur)
+            if r_ is not None:
+                return r_
         if isinstance(e, ast.Constant):
             if e.value is None:
                 return "None", "none"
@@ -427,6 +503,17 @@ class IntTr:
             if ty != "bool":
                 fail(e, "not")
             return f"(negb {t})", "bool"
+        if isinstance(e, ast.BoolOp) and isinstance(e.op, ast.Or) and len(e.values) == 2 and "dyn" in self.options:
+            (a0, t0), g0 = self.scoped(lambda: self.expr(e.values[0], cur))
+            if t0 == "optint":
+                for g in g0:
+                    self.guard(g)
+                (b0, t1), g1 = self.scoped(lambda: self.expr(e.values[1], cur))
+                if t1 != "int":
+                    fail(e, "`x or d` on Optional[int] needs an int default")
+                if g1:      # the default is only evaluated when x is falsy
+                    self.guard(f"((opt_truthy {a0}) || {self.conj(g1)})")
+                return f"(opt_or {a0} {b0})", "int"
         if isinstance(e, ast.BoolOp):
             op = " && " if isinstance(e.op, ast.And) else " || "
             parts = []
@@ -576,6 +663,360 @@ class IntTr:
         if isinstance(e, ast.Call):
             return self.call(e, cur)
         fail(e, "expression")
+
+    # -- third batch: dynamically typed values (option "dyn") ------------------------------------------
+    def class_names(self, node):
+        """class names of the second argument of isinstance: a name, a dotted name, a tuple of those, or
+        get_args(<module-level Union alias>)"""
+        if isinstance(node, ast.Tuple):
+            out = []
+            for x in node.elts:
+                out += self.class_names(x)
+            return out
+        if isinstance(node, ast.Name):
+            return [node.id]
+        if isinstance(node, ast.Attribute) and isinstance(node.value, ast.Name):
+            return [f"{node.value.id}.{node.attr}"]
+        if isinstance(node, ast.Call) and isinstance(node.func, ast.Name) and node.func.id == "get_args" and len(node.args) == 1 \
+                and not node.keywords and isinstance(node.args[0], ast.Name) and node.args[0].id in self.aliases:
+            return list(self.aliases[node.args[0].id])
+        fail(node, "class expression of isinstance")
+
+    def ctors_of(self, ty, node):
+        """constructors of the union type `ty` that the classes named by `node` cover"""
+        if ty not in UNION_CLASSES:
+            fail(node, f"isinstance on a value of type {ty}")
+        out = []
+        for cn in self.class_names(node):
+            if cn not in UNION_CLASSES[ty]:
+                fail(node, f"class {cn} has no reading on type {ty}")
+            for c in UNION_CLASSES[ty][cn]:
+                if c not in out:
+                    out.append(c)
+        return out
+
+    @staticmethod
+    def col_index(sl):
+        """X for a subscript of the form [:, X]"""
+        if isinstance(sl, ast.Tuple) and len(sl.elts) == 2 and isinstance(sl.elts[0], ast.Slice) \
+                and sl.elts[0].lower is None and sl.elts[0].upper is None and sl.elts[0].step is None \
+                and not isinstance(sl.elts[1], ast.Slice):
+            return sl.elts[1]
+        return None
+
+    def dyn_expr(self, e, cur):
+        """expression forms of the third batch; None = not one of them (the older rules apply)"""
+        if isinstance(e, ast.Attribute) and isinstance(e.value, ast.Name) and e.value.id in self.enums and e.value.id not in cur:
+            if e.attr not in self.enums[e.value.id]:
+                fail(e, "unknown enum member")
+            return e.attr, "enum:" + e.value.id
+        if isinstance(e, ast.Attribute):
+            t, ty = self.expr(e.value, cur)
+            table = {("nda", "ndim"): ("nd_ndim", "int"), ("nda", "size"): ("nd_size", "int"), ("nda", "shape"): ("nd_shape", "vec"),
+                     ("spt", "nnz"): ("spt_nnz", "int"), ("spt", "subs"): ("spt_subs", "mat"), ("spt", "shape"): ("spt_shape", "vec"),
+                     ("kt", "weights"): ("kt_weights", "vec"),
+                     ("slice", "start"): ("sl_start", "optint"), ("slice", "stop"): ("sl_stop", "optint"),
+                     ("slice", "step"): ("sl_step", "optint"), ("kt", "factor_matrices"): ("kt_factors", "matlist")}
+            if (ty, e.attr) in table:
+                fn, rty = table[(ty, e.attr)]
+                return f"({fn} {t})", rty
+            if ty in ("mat", "vec", "bvec") and e.attr == "size":
+                return None
+            fail(e, f"attribute .{e.attr} of a value of type {ty}")
+        if isinstance(e, ast.List) and e.elts:
+            parts = [self.expr(x, cur) for x in e.elts]
+            if any(ty != "int" for _, ty in parts):
+                fail(e, "list display of non-integers")
+            return "[" + "; ".join(t for t, _ in parts) + "]", "pylist"
+        if isinstance(e, ast.Compare) and len(e.ops) == 2 and all(isinstance(o, (ast.Lt, ast.LtE)) for o in e.ops):
+            a, ta = self.expr(e.left, cur)
+            b, tb = self.expr(e.comparators[0], cur)
+            c, tc = self.expr(e.comparators[1], cur)
+            if (ta, tb, tc) != ("int", "int", "int") or not isinstance(e.comparators[0], (ast.Name, ast.Constant)):
+                fail(e, "chained comparison")       # the middle operand is evaluated once: only names / literals
+            sym = {ast.Lt: "<?", ast.LtE: "<=?"}
+            return f"(({a} {sym[type(e.ops[0])]} {b}) && ({b} {sym[type(e.ops[1])]} {c}))", "bool"
+        if isinstance(e, ast.Compare) and len(e.ops) == 1:
+            op, rhs = e.ops[0], e.comparators[0]
+            if isinstance(op, ast.Eq) and ast.dump(rhs) == dump("slice(None, None, None)"):
+                t, ty = self.expr(e.left, cur)
+                if ty != "ix":
+                    fail(e, "comparison with slice(None, None, None)")
+                self.guard(f"(ix_eq_ok {t})")        # `not (ndarray == slice)`: ambiguous truth value
+                return f"(ix_is_fullslice {t})", "bool"
+            if isinstance(op, (ast.Gt, ast.GtE)) and isinstance(e.left, ast.Name) and e.left.id in cur and cur[e.left.id][1] == "nda":
+                r, tr = self.expr(rhs, cur)
+                if tr != "int":
+                    fail(e, "array comparison")
+                return f"({'nd_gt_s' if isinstance(op, ast.Gt) else 'nd_ge_s'} {cur[e.left.id][0]} {r})", "ndb"
+            return None
+        if isinstance(e, ast.Subscript):
+            ci = self.col_index(e.slice)
+            if ci is not None:
+                m, tm = self.expr(e.value, cur)
+                i, ti = self.expr(ci, cur)
+                if tm != "mat" or ti != "int":
+                    fail(e, "column subscript")
+                self.guard(f"(np_col_ok {m} {i})")
+                return f"(np_col {m} {i})", "vec"
+            if isinstance(e.slice, ast.Slice):
+                return None
+            if isinstance(e.slice, ast.Constant) and e.slice.value is None:
+                a, ta = self.expr(e.value, cur)
+                if ta != "nda":
+                    fail(e, "X[None]")
+                return f"(nd_expand0 {a})", "nda"
+            if isinstance(e.value, ast.Attribute) and e.value.attr == "shape" and isinstance(e.slice, ast.Constant):
+                t, ty = self.expr(e.value.value, cur)
+                if ty == "mat":
+                    return None
+                if ty == "ten3" and e.slice.value in (0, 1, 2):
+                    return f"({('t3_n1', 't3_n2', 't3_r')[e.slice.value]} {t})", "int"
+            a, ta = self.expr(e.value, cur)
+            i, ti = self.expr(e.slice, cur)
+            if ta in ("vec", "pylist") and ti == "slice":
+                self.guard(f"(slice_ok {i})")
+                return f"(py_slice 0 {a} {i})", ta
+            if ta in ("vec", "pylist") and ti == "vec":
+                self.guard(f"(np_take_ok {a} {i})")
+                return f"(np_take 0 {a} {i})", "vec"
+            if ta in ("vec", "pylist") and ti == "int":
+                self.guard(f"(idx_ok {a} {i})")
+                return f"(znth 0 {a} {i})", "int"
+            if ta == "ixlist" and ti == "int":
+                self.guard(f"(idx_ok {a} {i})")
+                return f"(znth IxNone {a} {i})", "ix"
+            if ta == "ix" and ti == "int":
+                self.guard(f"(ix_idx_ok {a} {i})")
+                return f"(ix_nth {a} {i})", "int"
+            if ta == "ix" and ti == "vec":
+                self.guard(f"(ix_take_ok {a} {i})")
+                return f"(ix_take {a} {i})", "vec"
+            if ta == "key" and ti == "int":
+                self.guard(f"(key_idx_ok {a} {i})")
+                return f"(key_nth {a} {i})", "elem"
+            return None
+        if isinstance(e, ast.Call):
+            return self.dyn_call(e, cur)
+        return None
+
+    def dyn_call(self, e, cur):
+        f = e.func
+        kw = {k.arg: k.value for k in e.keywords}
+        nm = f.id if isinstance(f, ast.Name) else None
+        if nm == "isinstance" and len(e.args) == 2 and not kw:
+            t, ty = self.expr(e.args[0], cur)
+            if ty == "nda" and ast.dump(e.args[1]) == dump("bool"):
+                return "false", "bool"            # an ndarray is never a Python bool
+            if ty not in UNION_CLASSES:
+                return None
+            cs = self.ctors_of(ty, e.args[1])
+            if not cs:
+                return "false", "bool"
+            return "(" + " || ".join(f"({UNION_CTORS[c][1]} {t})" for c in cs) + ")", "bool"
+        if nm == "issubclass" and len(e.args) == 2 and not kw and ast.dump(e.args[1]) == dump("np.integer") \
+                and isinstance(e.args[0], ast.Attribute) and e.args[0].attr == "type" \
+                and isinstance(e.args[0].value, ast.Attribute) and e.args[0].value.attr == "dtype":
+            t, ty = self.expr(e.args[0].value.value, cur)
+            if ty != "nda":
+                fail(e, "issubclass(X.dtype.type, np.integer)")
+            return f"(nd_is_integer {t})", "bool"
+        if nm == "int" and len(e.args) == 1 and not kw:
+            t, ty = self.expr(e.args[0], cur)
+            if ty == "nda":
+                self.guard(f"((nd_size {t}) =? 1)")      # int(array): only for exactly one entry
+                return f"(nd_int0 {t})", "int"
+            if ty != "int":
+                fail(e, "int() of a non-integer")
+            return t, "int"
+        if nm == "tuple" and len(e.args) == 1 and not kw and ast.dump(e.args[0].func if isinstance(e.args[0], ast.Call) else e) == dump("map") \
+                and len(e.args[0].args) == 2 and not e.args[0].keywords and ast.dump(e.args[0].args[0]) == dump("int"):
+            t, ty = self.expr(e.args[0].args[1], cur)
+            if ty != "nda":
+                fail(e, "tuple(map(int, X))")
+            self.guard(f"((nd_ndim {t}) =? 1)")         # iteration over the first axis: entries only for a 1-d array
+            return f"(nd_ints {t})", "pylist"
+        if nm == "tuple" and len(e.args) == 1 and not kw and isinstance(e.args[0], ast.Name) and e.args[0].id in cur \
+                and cur[e.args[0].id][1] == "shp":
+            t = cur[e.args[0].id][0]
+            self.guard(f"(shp_iter_ok {t})")
+            return f"(shp_elems {t})", "elist"
+        if isinstance(f, ast.Attribute) and f.attr == "squeeze" and not e.args and not kw:
+            t, ty = self.expr(f.value, cur)
+            if ty != "nda":
+                fail(e, ".squeeze()")
+            return f"(nd_squeeze {t})", "nda"
+        if ast.dump(f) == dump("np.issubdtype") and len(e.args) == 2 and not kw and ast.dump(e.args[1]) == dump("np.integer") \
+                and isinstance(e.args[0], ast.Attribute) and e.args[0].attr == "dtype":
+            t, ty = self.expr(e.args[0].value, cur)
+            if ty != "nda":
+                fail(e, "np.issubdtype(X.dtype, np.integer)")
+            return f"(nd_is_integer {t})", "bool"
+        if ast.dump(f) == dump("np.array") and len(e.args) == 1 and not kw and isinstance(e.args[0], ast.List) and e.args[0].elts \
+                and "array_nda" in self.options:
+            t, ty = self.expr(e.args[0], cur)
+            return f"(nd_of_ints {t})", "nda"
+        if nm == "len" and len(e.args) == 1 and not kw:
+            if isinstance(e.args[0], ast.Attribute) and e.args[0].attr == "shape":
+                t, ty = self.expr(e.args[0].value, cur)
+                if ty == "nda":
+                    return f"(nd_ndim {t})", "int"
+                if ty != "spt":
+                    return None
+            t, ty = self.expr(e.args[0], cur)
+            if ty == "vec" and isinstance(e.args[0], ast.Attribute):
+                return f"(zlen {t})", "int"
+            if ty == "ix":
+                self.guard(f"(ix_len_ok {t})")
+                return f"(ix_len {t})", "int"
+            if ty in ("pylist", "ixlist", "elist"):
+                return f"(zlen {t})", "int"
+            return None
+        if nm == "range" and len(e.args) == 1 and not kw:
+            b, tb = self.expr(e.args[0], cur)
+            if tb != "int":
+                fail(e, "range bound")
+            return f"(np_arange 0 {b})", "pylist"
+        if isinstance(f, ast.Attribute) and f.attr == "dot" and len(e.args) == 1 and not kw:
+            # X[:, :, j].transpose().dot(v)  /  X[:, :, j].dot(v)  for a 3-d view X
+            recv, lead = f.value, False
+            if isinstance(recv, ast.Call) and isinstance(recv.func, ast.Attribute) and recv.func.attr == "transpose" \
+                    and not recv.args and not recv.keywords:
+                recv, lead = recv.func.value, True
+            if isinstance(recv, ast.Subscript) and isinstance(recv.slice, ast.Tuple) and len(recv.slice.elts) == 3 \
+                    and all(isinstance(x, ast.Slice) and x.lower is None and x.upper is None and x.step is None for x in recv.slice.elts[:2]) \
+                    and not isinstance(recv.slice.elts[2], ast.Slice):
+                x, tx = self.expr(recv.value, cur)
+                j, tj = self.expr(recv.slice.elts[2], cur)
+                v, tv = self.expr(e.args[0], cur)
+                if (tx, tj, tv) != ("ten3", "int", "vec"):
+                    fail(e, "slice-dot template")
+                fn = "t3_dot_lead" if lead else "t3_dot_mid"
+                self.guard(f"({fn}_ok {x} {j} {v})")
+                return f"({fn} {x} {j} {v})", "vec"
+            fail(e, ".dot()")
+        if isinstance(f, (ast.Name, ast.Attribute)) and (kw or any(isinstance(x, ast.Starred) for x in e.args)):
+            fname = f.id if isinstance(f, ast.Name) else (f.attr if isinstance(f.value, ast.Name) and f.value.id == "ttb" else None)
+            if fname in self.known and fname in self.known_names and len(self.known[fname][1]) == 1:
+                # call of a translated function with *list / keyword arguments (single result): an Err of the callee is
+                # an Err here — expressed as a guard on `is_ok` plus the projection `res_get`
+                ptys, rtys = self.known[fname]
+                pn = self.known_names[fname]
+                given = {}
+                pos = [x for x in e.args]
+                if len(pos) == 1 and isinstance(pos[0], ast.Starred) and "*" in pn:
+                    given[pn.index("*")] = pos[0].value
+                elif pos:
+                    fail(e, "positional arguments of a known call")
+                for k_, v_ in kw.items():
+                    if k_ not in pn:
+                        fail(e, "keyword of a known call")
+                    given[pn.index(k_)] = v_
+                if sorted(given) != list(range(len(ptys))):
+                    fail(e, "known call: every parameter must be given")
+                ats = []
+                for i_ in range(len(ptys)):
+                    t, ty = self.expr(given[i_], cur)
+                    ats.append(self.coerce(t, ty, ptys[i_], e))
+                call_ = f"({fname} {' '.join(ats)})"
+                self.guard(f"(is_ok {call_})")
+                dflt = {"mat": "[]", "vec": "[]", "int": "0"}.get(rtys[0])
+                if dflt is None:
+                    fail(e, "known call result type")
+                return f"(res_get {dflt} {call_})", rtys[0]
+        if nm == "range" and len(e.args) == 2 and not kw:
+            a, ta = self.expr(e.args[0], cur)
+            b, tb = self.expr(e.args[1], cur)
+            if ta != "int" or tb != "int":
+                fail(e, "range bounds")
+            return f"(np_arange {a} {b})", "pylist"
+        if nm in ("list", "tuple") and len(e.args) == 1 and not kw and not isinstance(e.args[0], ast.Call):
+            t, ty = self.expr(e.args[0], cur)
+            if ty in ("vec", "pylist"):
+                return t, "pylist"
+            fail(e, nm + "()")
+        if nm == "list" and len(e.args) == 1 and not kw and isinstance(e.args[0], ast.Call) \
+                and isinstance(e.args[0].func, ast.Name) and e.args[0].func.id == "range":
+            return self.expr(e.args[0], cur)
+        if nm == "all" and len(e.args) == 1 and not kw and not isinstance(e.args[0], ast.GeneratorExp):
+            t, ty = self.expr(e.args[0], cur)
+            if ty != "ndb":
+                fail(e, "all() of a non-array")
+            self.guard(f"(ndb_iter_ok {t})")
+            return f"(ndb_all {t})", "bool"
+        if isinstance(f, ast.Attribute) and f.attr == "all" and not e.args and not kw:
+            t, ty = self.expr(f.value, cur)
+            if ty != "ndb":
+                fail(e, ".all() of a non-array")
+            return f"(ndb_all {t})", "bool"
+        if isinstance(f, ast.Attribute) and f.attr == "copy" and not e.args and not kw:
+            t, ty = self.expr(f.value, cur)
+            if ty == "kt":
+                return t, ty
+            return None
+        if isinstance(f, ast.Attribute) and isinstance(f.value, ast.Name) and f.value.id == "np" and "np" not in cur:
+            fn = f.attr
+            if fn == "array" and len(e.args) == 1 and not kw and not isinstance(e.args[0], ast.List):
+                t, ty = self.expr(e.args[0], cur)
+                if ty == "ix":
+                    return f"(ix_asarray {t})", "ix"
+                if ty == "key":
+                    self.guard(f"(key_asarray_ok {t})")
+                    return f"(key_asarray {t})", "nda"
+                if ty == "shp":
+                    self.guard(f"(shp_asarray_ok {t})")
+                    return f"(shp_asarray {t})", "nda"
+                if ty == "nda":
+                    return t, "nda"
+                return None
+            if fn == "zeros" and not e.args and set(kw) == {"shape"}:
+                t, ty = self.expr(kw["shape"], cur)
+                if ty != "int":
+                    fail(e, "np.zeros(shape=<int>)")
+                self.guard(f"(np_zeros_ok {t})")
+                return f"(np_zeros {t})", "vec"
+            if fn == "reshape" and len(e.args) == 2 and set(kw) == {"order"} and ast.dump(kw["order"]) == dump("'F'") \
+                    and isinstance(e.args[1], ast.Tuple) and len(e.args[1].elts) == 3:
+                m_, tm = self.expr(e.args[0], cur)
+                a_, b_, r_ = e.args[1].elts
+                if tm != "mat":
+                    fail(e, "np.reshape to 3-d")
+                r, tr = self.expr(r_, cur)
+                if ast.dump(b_) == dump("-1"):
+                    n, tn = self.expr(a_, cur)
+                    fn3 = "np_reshape3_lead"
+                elif ast.dump(a_) == dump("-1"):
+                    n, tn = self.expr(b_, cur)
+                    fn3 = "np_reshape3_mid"
+                else:
+                    fail(e, "np.reshape to 3-d: one leading axis must be -1")
+                if tn != "int" or tr != "int":
+                    fail(e, "np.reshape to 3-d: sizes")
+                self.guard(f"({fn3}_ok {m_} {n} {r})")
+                return f"({fn3} {m_} {n} {r})", "ten3"
+            if fn == "zeros_like" and len(e.args) == 1 and set(kw) == {"shape"} and isinstance(kw["shape"], ast.Tuple) \
+                    and len(kw["shape"].elts) == 2:
+                self.expr(e.args[0], cur)       # only the dtype of the prototype is used
+                a, ta = self.expr(kw["shape"].elts[0], cur)
+                b, tb = self.expr(kw["shape"].elts[1], cur)
+                if ta != "int" or tb != "int":
+                    fail(e, "np.zeros_like(shape=)")
+                self.guard(f"(np_zeros2_ok {a} {b})")
+                return f"(np_zeros2 {a} {b})", "mat"
+            if fn == "isfinite" and len(e.args) == 1 and not kw:
+                t, ty = self.expr(e.args[0], cur)
+                if ty != "nda":
+                    fail(e, "np.isfinite")
+                return f"(nd_isfinite {t})", "ndb"
+            if fn == "insert" and len(e.args) == 1 and set(kw) == {"obj", "values", "axis"} and ast.dump(kw["axis"]) == dump("1"):
+                m, tm = self.expr(e.args[0], cur)
+                i, ti = self.expr(kw["obj"], cur)
+                v, tv = self.expr(kw["values"], cur)
+                if (tm, ti, tv) != ("mat", "int", "int"):
+                    fail(e, "np.insert")
+                self.guard(f"(np_insert_col_ok {m} {i})")
+                return f"(np_insert_col {m} {i} {v})", "mat"
+        return None
 
     @staticmethod
     def _shape0_name(e):
@@ -792,6 +1233,9 @@ class IntTr:
                         elif isinstance(n, ast.Subscript) and isinstance(n.value, ast.Name):
                             if n.value.id not in out:
                                 out.append(n.value.id)
+            elif isinstance(s, ast.Expr) and self.mutator(s) is not None:
+                if self.mutator(s)[0] not in out:
+                    out.append(self.mutator(s)[0])
             elif isinstance(s, ast.AnnAssign) and isinstance(s.target, ast.Name) and s.value is not None:
                 if s.target.id not in out:
                     out.append(s.target.id)
@@ -805,6 +1249,16 @@ class IntTr:
             elif isinstance(s, (ast.For, ast.While, ast.With, ast.Try)):
                 fail(s, "loop / block statement nested inside a branch or loop body")
         return out
+
+    MUTATORS = {("kt", "redistribute"): ("kt_redistribute", "kt_redistribute_ok", ["int"])}
+
+    @staticmethod
+    def mutator(s):
+        """(receiver name, method name, argument nodes) for an expression statement  X.method(args)"""
+        v = s.value
+        if isinstance(v, ast.Call) and isinstance(v.func, ast.Attribute) and isinstance(v.func.value, ast.Name) and not v.keywords:
+            return v.func.value.id, v.func.attr, v.args
+        return None
 
     def reads(self, stmts):
         """names read by stmts, ignoring exception/assert messages"""
@@ -847,6 +1301,10 @@ class IntTr:
             return "None"
         if want in ("vec", "mat") and ty == "nil":
             return text
+        if (ty, want) in (("pylist", "vec"), ("vec", "pylist")):
+            return text
+        if (ty, want) in UNION_INJ:
+            return f"({UNION_INJ[(ty, want)]} {text})"
         fail(node, f"cannot coerce {ty} to {want}")
 
     def bind_name(self, name, text, ty, cur, node):
@@ -854,6 +1312,22 @@ class IntTr:
         if name not in self.types:
             fail(node, f"variable {name} missing from the type environment")
         want = self.types[name]
+        if ty != want and ty in self.retypes.get(name, []):
+            # the variable is rebound at another type (e.g. a matrix reshaped to a 3-d view): later code sees the new type;
+            # joins and loops still demand the declared type, so a retyped variable cannot flow through them
+            self.fresh += 1
+            v = f"{name}_{self.fresh}"
+            cur = dict(cur)
+            cur[name] = (v, ty)
+            return f"let {v} := {text} in\n", cur
+        if (ty, want) in UNION_INJ:
+            # a value of a narrowed type bound to a union-typed variable keeps its narrowed type until the next join
+            self.coerce(text, ty, want, node)
+            self.fresh += 1
+            v = f"{name}_{self.fresh}"
+            cur = dict(cur)
+            cur[name] = (v, ty)
+            return f"let {v} := {text} in\n", cur
         t = self.coerce(text, ty, want, node)
         self.fresh += 1
         v = f"{name}_{self.fresh}"
@@ -907,7 +1381,7 @@ class IntTr:
             ltxt = l
         assigned = self.assigned(s.body)
         for n, _ in targets:
-            if n in cur or n in assigned or n == "_":
+            if n in cur or n == "_" or (n in assigned and not ("dyn" in self.options and n in self.types)):
                 fail(s, f"loop variable {n} is rebound")
         if len({n for n, _ in targets}) != len(targets):
             fail(s, "loop targets")
@@ -946,6 +1420,10 @@ class IntTr:
             curb[n] = (v, ty)
         self.loops.append(carried)
         live_b = frozenset(after | set(carried) | self.reads(s.body))
+        if "dyn" in self.options:
+            # names first bound inside the body are not live across iterations (a read before the assignment in a later
+            # iteration would find the name unbound in the model: the translation aborts there)
+            live_b = frozenset(n for n in live_b if n in cur or n in carried or n in after)
         body = self.block(s.body, curb, lambda c: self.loop_tuple(c, False, s), live_b)
         self.loops.pop()
         cur2 = dict(cur)
@@ -978,6 +1456,17 @@ class IntTr:
             m = self.match_unravel(s.value, cur)
             if m:
                 return m
+        if isinstance(s, ast.Return) and "dyn" in self.options and self.ret == ["vec"]:
+            if isinstance(s.value, ast.Tuple):        # a tuple display of ints is ONE value: an integer vector
+                parts = [self.expr(x, cur) for x in s.value.elts]
+                if any(ty != "int" for _, ty in parts):
+                    fail(s, "tuple display of non-integers")
+                return "Ok [" + "; ".join(t for t, _ in parts) + "]"
+            t, ty = self.expr(s.value, cur)
+            if ty == "elist":                          # a tuple of Python objects returned as an integer vector: only if all are ints
+                self.guard(f"(elems_all_int {t})")
+                return f"Ok (elems_ints {t})"
+            return f"Ok {self.coerce(t, ty, 'vec', s)}"
         if isinstance(s, ast.Return):
             vals = s.value.elts if isinstance(s.value, ast.Tuple) else [s.value]
             if len(vals) != len(self.ret):
@@ -989,6 +1478,29 @@ class IntTr:
             return "Ok (" + ", ".join(parts) + ")" if len(parts) > 1 else f"Ok {parts[0]}"
         if isinstance(s, ast.Raise):
             return "Err"
+        if isinstance(s, ast.Expr) and "dyn" in self.options and self.mutator(s) is not None:
+            name, meth, args = self.mutator(s)
+            if name not in cur or (cur[name][1], meth) not in self.MUTATORS:
+                fail(s, "expression statement")
+            fn, okfn, ptys = self.MUTATORS[(cur[name][1], meth)]
+            if len(args) != len(ptys):
+                fail(s, "mutating call arity")
+            ats = []
+            for a, want in zip(args, ptys):
+                t, ty = self.expr(a, cur)
+                ats.append(self.coerce(t, ty, want, s))
+            self.guard(f"({okfn} {cur[name][0]} {' '.join(ats)})")
+            pre, cur2 = self.bind_name(name, f"({fn} {cur[name][0]} {' '.join(ats)})", cur[name][1], cur, s)
+            return pre + self.block(rest, cur2, tail, live)
+        if isinstance(s, ast.Assert) and "dyn" in self.options and self.narrow(s.test, cur):
+            name, pos, ctor, nty, other = self.narrow(s.test, cur)
+            if not pos:
+                fail(s, "negative narrowing assert")
+            self.fresh += 1
+            nv = f"{name}_v{self.fresh}"
+            c = dict(cur)
+            c[name] = (nv, nty)
+            return f"match {cur[name][0]} with\n| {ctor} {nv} =>\n{self.block(rest, c, tail, live)}\n| {other} =>\nErr\nend"
         if isinstance(s, ast.Assert):
             if isinstance(s.test, ast.Constant) and s.test.value is False:
                 return "Err"
@@ -1039,6 +1551,26 @@ class IntTr:
                 p, cur = self.bind_name(tg.id, t, ty, cur, s)
                 pre += p
             return pre + self.block(rest, cur, tail, live)
+        if "dyn" in self.options and isinstance(tgt, ast.Subscript) and isinstance(tgt.value, ast.Name):
+            ci = self.col_index(tgt.slice)
+            a, ta = self.expr(tgt.value, cur)
+            v, tv = self.expr(s.value, cur)
+            txt = None
+            if ci is not None:
+                i, ti = self.expr(ci, cur)
+                if (ta, ti, tv) == ("mat", "int", "vec"):
+                    self.guard(f"(np_setcol_ok {a} {i} {v})")
+                    txt = f"(np_setcol {a} {i} {v})"
+            elif not isinstance(tgt.slice, (ast.Slice, ast.Tuple)):
+                i, ti = self.expr(tgt.slice, cur)
+                if (ta, ti, tv) == ("vec", "int", "int"):
+                    self.guard(f"(idx_ok {a} {i})")
+                    txt = f"(np_set {a} {i} {v})"
+            if txt is not None:
+                pre, cur2 = self.bind_name(tgt.value.id, txt, ta, cur, s)
+                return pre + self.block(rest, cur2, tail, live)
+            if ci is not None:
+                fail(s, "column store")
         # a[idx] = v
         if isinstance(tgt, ast.Subscript) and isinstance(tgt.value, ast.Name):
             a, ta = self.expr(tgt.value, cur)
@@ -1053,6 +1585,33 @@ class IntTr:
             pre, cur2 = self.bind_name(tgt.value.id, txt, ta, cur, s)
             return pre + self.block(rest, cur2, tail, live)
         # tuple unpacking of whitelisted multi-result forms
+        if isinstance(tgt, ast.Tuple) and "dyn" in self.options and any(isinstance(n, ast.Subscript) for n in tgt.elts) \
+                and isinstance(s.value, ast.Call) and isinstance(s.value.func, ast.Name) and s.value.func.id in self.known:
+            # X[...], Y[...] = f(...)  ==  t1, t2 = f(...); X[...] = t1; Y[...] = t2   (stores happen left to right)
+            v = s.value
+            ptys, rtys = self.known[v.func.id]
+            if len(v.args) != len(ptys) or v.keywords or len(rtys) != len(tgt.elts):
+                fail(s, "known call arity")
+            args = []
+            for a, want in zip(v.args, ptys):
+                t, ty = self.expr(a, cur)
+                args.append(self.coerce(t, ty, want, s))
+            cur2 = dict(cur)
+            vs, stores = [], []
+            for n, rty in zip(tgt.elts, rtys):
+                self.fresh += 1
+                tmp = f"tmp_{self.fresh}"
+                vs.append(tmp)
+                cur2["%" + tmp] = (tmp, rty)
+                if isinstance(n, ast.Name):
+                    st = ast.Assign(targets=[n], value=ast.Name(id="%" + tmp, ctx=ast.Load()))
+                elif isinstance(n, ast.Subscript):
+                    st = ast.Assign(targets=[n], value=ast.Name(id="%" + tmp, ctx=ast.Load()))
+                else:
+                    fail(s, "tuple target")
+                stores.append(ast.copy_location(st, s))
+            pat = "'(" + ", ".join(vs) + ")" if len(vs) > 1 else vs[0]
+            return f"bind ({v.func.id} {' '.join(args)}) (fun {pat} =>\n" + self.block(stores + rest, cur2, tail, live) + ")"
         if isinstance(tgt, ast.Tuple):
             names = []
             for n in tgt.elts:
@@ -1160,12 +1719,19 @@ class IntTr:
                 and isinstance(test.ops[0], (ast.Is, ast.IsNot)):
             n = test.left.id
             if n in cur and cur[n][1] in ("optvec", "optint"):
-                return n, isinstance(test.ops[0], ast.IsNot)
+                return n, isinstance(test.ops[0], ast.IsNot), "Some", {"optvec": "vec", "optint": "int"}[cur[n][1]], "None"
         if isinstance(test, ast.Call) and isinstance(test.func, ast.Name) and test.func.id == "isinstance" \
                 and isinstance(test.args[0], ast.Name) and ast.dump(test.args[1]) == dump("np.ndarray"):
             n = test.args[0].id
             if n in cur and cur[n][1] == "optvec":
-                return n, True
+                return n, True, "Some", "vec", "None"
+        if "dyn" in self.options and isinstance(test, ast.Call) and isinstance(test.func, ast.Name) and test.func.id == "isinstance" \
+                and len(test.args) == 2 and not test.keywords and isinstance(test.args[0], ast.Name):
+            n = test.args[0].id
+            if n in cur and cur[n][1] in UNION_CLASSES:
+                cs = self.ctors_of(cur[n][1], test.args[1])
+                if len(cs) == 1:       # exactly one constructor: the branch sees its argument at the narrowed type
+                    return n, True, cs[0], UNION_CTORS[cs[0]][0], "_"
         return None
 
     NARROWED = {"optvec": "vec", "optint": "int", "optmat": "mat"}
@@ -1216,7 +1782,7 @@ class IntTr:
         def narrowed(nv):
             c = dict(cur)
             name = nar[0]
-            c[name] = (nv, {"optvec": "vec", "optint": "int"}[cur[name][1]])
+            c[name] = (nv, nar[3])
             return c
 
         def mk(true_fn, false_fn):
@@ -1227,7 +1793,7 @@ class IntTr:
                 otxt, _ = cur[nar[0]]
                 self.fresh += 1
                 nv = f"{nar[0]}_v{self.fresh}"
-                return f"match {otxt} with\n| Some {nv} =>\n{true_fn(narrowed(nv))}\n| None =>\n{false_fn(cur)}\nend"
+                return f"match {otxt} with\n| {nar[2]} {nv} =>\n{true_fn(narrowed(nv))}\n| {nar[4]} =>\n{false_fn(cur)}\nend"
             t, ty = self.expr(s.test, cur)
             if ty != "bool":
                 fail(s, "if test type")
@@ -1247,13 +1813,34 @@ class IntTr:
             if n not in self.types:
                 fail(s, f"variable {n} missing from the type environment")
 
+        jt = {n: self.types[n] for n in av}      # type of each variable at the join
+        if any(self.types[n] in UNION_CLASSES for n in av):
+            # union-typed variables: when every branch leaves the same narrowed type, the join keeps it.  Probe pass
+            # (text discarded, counters and guards restored) to learn the types the branches end with.
+            seen = {n: set() for n in av}
+
+            def probe(c):
+                for n in av:
+                    if n not in c:
+                        fail(s, f"{n} may be unbound at the join")
+                    seen[n].add(c[n][1])
+                return "Ok tt"
+            saved = self.fresh
+            self.scoped(lambda: mk(lambda c: self.block(body, c, probe, live2), lambda c: self.block(orelse, c, probe, live2)))
+            self.fresh = saved
+            for n in av:
+                if self.types[n] in UNION_CLASSES and len(seen[n]) == 1:
+                    ty1 = next(iter(seen[n]))
+                    if (ty1, self.types[n]) in UNION_INJ:
+                        jt[n] = ty1
+
         def endtuple(c):
             parts = []
             for n in av:
                 if n not in c:
                     fail(s, f"{n} may be unbound at the join")
                 t, ty = c[n]
-                parts.append(self.coerce(t, ty, self.types[n], s))
+                parts.append(self.coerce(t, ty, jt[n], s))
             return "Ok (" + ", ".join(parts) + ")" if len(parts) > 1 else f"Ok {parts[0]}"
 
         if not av:
@@ -1265,7 +1852,7 @@ class IntTr:
             self.fresh += 1
             vn = f"{n}_{self.fresh}"
             vs.append(vn)
-            cur2[n] = (vn, self.types[n])
+            cur2[n] = (vn, jt[n])
         pat = "'(" + ", ".join(vs) + ")" if len(vs) > 1 else vs[0]
         return f"bind ({head}) (fun {pat} =>\n" + self.block(rest, cur2, tail, live) + ")"
 
@@ -1288,14 +1875,19 @@ class IntTr:
             if p not in self.types:
                 fail(f, f"parameter {p} missing from the type environment")
             cur[p] = (p, self.types[p])
-            sig.append(f"({p} : {COQ_TY[self.types[p]]})")
-        rty = " * ".join(COQ_TY[t] for t in self.ret)
+            sig.append(f"({p} : {coq_ty(self.types[p])})")
+        rty = " * ".join(coq_ty(t) for t in self.ret)
         body = strip_doc(f.body)
 
         def tail(c):
             fail(f, "control falls off the end of the function")
         txt = self.block(body, cur, tail)
-        return f"Definition {f.name} {' '.join(sig)} : res ({rty}) :=\n{txt}.\n"
+        return f"Definition {fenv.get('coqname', f.name)} {' '.join(sig)} : res ({rty}) :=\n{txt}.\n"
+
+
+def param_names(f):
+    """parameter names in the order of IntTr.params; the *args parameter is written "*" """
+    return [a.arg for a in f.args.args] + (["*"] if f.args.vararg else []) + [a.arg for a in f.args.kwonlyargs]
 
 
 def gen_utils(src_root, envpath, key="utils", title="pyttb/pyttb_utils.py", imports="Np.NpZ", extern=()):
@@ -1306,6 +1898,9 @@ def gen_utils(src_root, envpath, key="utils", title="pyttb/pyttb_utils.py", impo
     known = {}
     names = []
     trees = {}
+    info = {}
+    emitted = []
+    known_names = {}
     for k2 in extern:        # functions translated into an imported unit: callable from this one
         for unit in env[k2]:
             path = os.path.join(src_root, unit["file"])
@@ -1314,6 +1909,7 @@ def gen_utils(src_root, envpath, key="utils", title="pyttb/pyttb_utils.py", impo
             if unit["name"] not in trees[path]:
                 raise Unsupported(f"{unit['file']}: function {unit['name']} not found")
             known[unit["name"]] = ([unit["types"][a] for a in IntTr.params(trees[path][unit["name"]])], unit["returns"])
+            known_names[unit["name"]] = param_names(trees[path][unit["name"]])
     for unit in env[key]:
         path = os.path.join(src_root, unit["file"])
         if path not in trees:
@@ -1323,11 +1919,21 @@ def gen_utils(src_root, envpath, key="utils", title="pyttb/pyttb_utils.py", impo
         if name not in funcs:
             raise Unsupported(f"{unit['file']}: function {name} not found")
         f = funcs[name]
-        tr = IntTr(unit, known)
+        if path not in info:
+            info[path] = module_info(ast.parse(open(path).read()))
+        for en in unit.get("enums", []):      # enum classes the function mentions: emitted once, members as in the source
+            if en not in info[path][0]:
+                raise Unsupported(f"{unit['file']}: enum class {en} not found")
+            if en not in emitted:
+                emitted.append(en)
+                out.append(f"Inductive {en} := " + " | ".join(info[path][0][en]) + ".\n")
+        tr = IntTr(unit, known, {en: info[path][0][en] for en in unit.get("enums", [])}, info[path][1])
+        tr.known_names = known_names
         # defaults: only the ones declared in the env are accepted (parameter fixed to its default is NOT done:
         # every parameter stays a parameter of the Gallina function)
         out.append(tr.func(f, unit))
         known[name] = ([unit["types"][a] for a in IntTr.params(f)], unit["returns"])
+        known_names[name] = param_names(f)
         names.append(name)
     return "\n".join(out) + "\n", names
 
@@ -1354,7 +1960,17 @@ def main():
                      ("GenKernels", lambda: gen_utils(src, envp, "kernels", "pyttb/tensor.py (min_split), pyttb/khatrirao.py",
                                                       "Np.NpZ Np.NpZ2")),
                      ("GenUtils2", lambda: gen_utils(src, envp, "utils2", "pyttb/pyttb_utils.py (gather_wrap_dims, tt_union_rows)",
-                                                     "Np.NpZ Np.NpZ2 Gen.GenUtils", extern=("utils",)))):
+                                                     "Np.NpZ Np.NpZ2 Gen.GenUtils", extern=("utils",))),
+                     ("GenUtils3", lambda: gen_utils(src, envp, "utils3", "pyttb/pyttb_utils.py (renumbering, key classification, "
+                                                     "shape / subscript / value checks, mttkrp factor preparation)",
+                                                     "Np.NpZ Np.NpZ2 Np.NpZ3")),
+                     ("GenUtils3b", lambda: gen_utils(src, envp, "utils3b", "pyttb/pyttb_utils.py (parse_shape, parse_one_d)",
+                                                      "Np.NpZ Np.NpZ2 Np.NpZ3 Np.NpZ3b")),
+                     ("GenKernels3", lambda: gen_utils(src, envp, "kernels3", "pyttb/tensor.py (mttv_left, mttv_mid)",
+                                                       "Np.NpZ Np.NpZ2 Np.NpZ3 Np.NpZ3c Gen.GenKernels", extern=("kernels",))),
+                     ("GenMethods", lambda: gen_utils(src, envp, "methods", "simple methods / properties of pyttb classes "
+                                                      "(`self` is a parameter: a record of the fields the method reads)",
+                                                      "Np.NpZ Np.NpZ2 Np.NpZ3"))):
         try:
             text, names = fn()
             changed = write_if_changed(os.path.join(outdir, unit + ".v"), text)
